@@ -1,0 +1,68 @@
+//go:build verif
+
+package main
+
+// Machine-checked contracts for the CLI (checked by /verif/govc; see /verif/DESIGN.md).
+// This file contains comments only; it is compiled only under the build tag "verif".
+//
+// The generic commands are verified once against the interface methods of whatever ecosystem value they are
+// given (e.NewVersion, e.NewVersionRange, V.Compare, VR.Contains); `run` is verified to hand each registered
+// name the ecosystem value of that very package.  Go's dynamic dispatch does the rest (trusted).
+
+//@ func compare
+//@   ensures arity: len(args) != 2 ==> result1 != nil                                                   [C15]
+//@   ensures bad-left: len(args) == 2 && e.NewVersion(args[0]).1 != nil ==> result1 != nil               [C15]
+//@   ensures bad-right: len(args) == 2 && e.NewVersion(args[0]).1 == nil && e.NewVersion(args[1]).1 != nil ==> result1 != nil   [C15]
+//@   ensures faithful: len(args) == 2 && e.NewVersion(args[0]).1 == nil && e.NewVersion(args[1]).1 == nil ==> result1 == nil && result0 == e.NewVersion(args[0]).0.Compare(e.NewVersion(args[1]).0)   [C15]
+
+//@ func contains
+//@   ensures arity: len(args) != 2 ==> result1 != nil && !result0                                        [C15]
+//@   ensures bad-range: len(args) == 2 && e.NewVersionRange(args[0]).1 != nil ==> result1 != nil && !result0   [C15]
+//@   ensures bad-version: len(args) == 2 && e.NewVersionRange(args[0]).1 == nil && e.NewVersion(args[1]).1 != nil ==> result1 != nil && !result0   [C15]
+//@   ensures faithful: len(args) == 2 && e.NewVersionRange(args[0]).1 == nil && e.NewVersion(args[1]).1 == nil ==> result1 == nil && result0 == e.NewVersionRange(args[0]).0.Contains(e.NewVersion(args[1]).0)   [C15]
+
+//@ func versContains
+//@   ensures arity: len(args) != 2 ==> result1 != nil && !result0                                        [C15]
+//@   ensures faithful: len(args) == 2 ==> result0 == vers.Contains(args[0], args[1]).0 && (result1 == nil) == (vers.Contains(args[0], args[1]).1 == nil)   [C15]
+
+//@ func runEcosystem
+//@   ensures no-command: len(args) == 0 ==> result1 == 1                                                 [C15]
+//@   ensures unknown-command: len(args) > 0 && args[0] != "compare" && args[0] != "sort" && args[0] != "contains" ==> result1 == 1   [C15]
+//@   ensures compare-ok: len(args) > 0 && args[0] == "compare" && compare(e, args[1:]).1 == nil ==> result1 == 0 && result0 == itoa(compare(e, args[1:]).0)   [C15]
+//@   ensures compare-err: len(args) > 0 && args[0] == "compare" && compare(e, args[1:]).1 != nil ==> result1 == 1   [C15]
+//@   ensures contains-ok: len(args) > 0 && args[0] == "contains" && contains(e, args[1:]).1 == nil ==> result1 == 0 && result0 == (contains(e, args[1:]).0 ? "true" : "false")   [C15]
+//@   ensures contains-err: len(args) > 0 && args[0] == "contains" && contains(e, args[1:]).1 != nil ==> result1 == 1   [C15]
+//@   ensures sort-err: len(args) > 0 && args[0] == "sort" && sort(e, args[1:]).1 != nil ==> result1 == 1   [C15]
+//@   ensures sort-ok: len(args) > 0 && args[0] == "sort" && sort(e, args[1:]).1 == nil ==> result1 == 0   [C15]
+
+//@ func runVers
+//@   ensures no-command: len(args) == 0 ==> result1 == 1                                                 [C15]
+//@   ensures unknown-command: len(args) > 0 && args[0] != "contains" ==> result1 == 1                    [C15]
+//@   ensures contains-ok: len(args) > 0 && args[0] == "contains" && versContains(args[1:]).1 == nil ==> result1 == 0 && result0 == (versContains(args[1:]).0 ? "true" : "false")   [C15]
+//@   ensures contains-err: len(args) > 0 && args[0] == "contains" && versContains(args[1:]).1 != nil ==> result1 == 1   [C15]
+
+//@ func run
+//@   ensures one-line: nprinted == 1                                                                     [C15]
+//@   ensures no-args: len(args) == 0 ==> result == 1                                                     [C15]
+//@   ensures vers: len(args) > 0 && args[0] == "vers" ==> result == runVers(args[1:]).1 && printed == runVers(args[1:]).0 + "\n"   [C15]
+//@   ensures wiring[alpine]: len(args) > 0 && args[0] == "alpine" ==> result == runEcosystem(ecosystem("alpine"), args[1:]).1 && printed == runEcosystem(ecosystem("alpine"), args[1:]).0 + "\n"   [C15]
+//@   ensures wiring[alpm]: len(args) > 0 && args[0] == "alpm" ==> result == runEcosystem(ecosystem("alpm"), args[1:]).1 && printed == runEcosystem(ecosystem("alpm"), args[1:]).0 + "\n"   [C15]
+//@   ensures wiring[apache]: len(args) > 0 && args[0] == "apache" ==> result == runEcosystem(ecosystem("apache"), args[1:]).1 && printed == runEcosystem(ecosystem("apache"), args[1:]).0 + "\n"   [C15]
+//@   ensures wiring[cargo]: len(args) > 0 && args[0] == "cargo" ==> result == runEcosystem(ecosystem("cargo"), args[1:]).1 && printed == runEcosystem(ecosystem("cargo"), args[1:]).0 + "\n"   [C15]
+//@   ensures wiring[conan]: len(args) > 0 && args[0] == "conan" ==> result == runEcosystem(ecosystem("conan"), args[1:]).1 && printed == runEcosystem(ecosystem("conan"), args[1:]).0 + "\n"   [C15]
+//@   ensures wiring[composer]: len(args) > 0 && args[0] == "composer" ==> result == runEcosystem(ecosystem("composer"), args[1:]).1 && printed == runEcosystem(ecosystem("composer"), args[1:]).0 + "\n"   [C15]
+//@   ensures wiring[cran]: len(args) > 0 && args[0] == "cran" ==> result == runEcosystem(ecosystem("cran"), args[1:]).1 && printed == runEcosystem(ecosystem("cran"), args[1:]).0 + "\n"   [C15]
+//@   ensures wiring[debian]: len(args) > 0 && args[0] == "debian" ==> result == runEcosystem(ecosystem("debian"), args[1:]).1 && printed == runEcosystem(ecosystem("debian"), args[1:]).0 + "\n"   [C15]
+//@   ensures wiring[gem]: len(args) > 0 && args[0] == "gem" ==> result == runEcosystem(ecosystem("gem"), args[1:]).1 && printed == runEcosystem(ecosystem("gem"), args[1:]).0 + "\n"   [C15]
+//@   ensures wiring[gentoo]: len(args) > 0 && args[0] == "gentoo" ==> result == runEcosystem(ecosystem("gentoo"), args[1:]).1 && printed == runEcosystem(ecosystem("gentoo"), args[1:]).0 + "\n"   [C15]
+//@   ensures wiring[github]: len(args) > 0 && args[0] == "github" ==> result == runEcosystem(ecosystem("github"), args[1:]).1 && printed == runEcosystem(ecosystem("github"), args[1:]).0 + "\n"   [C15]
+//@   ensures wiring[golang]: len(args) > 0 && args[0] == "golang" ==> result == runEcosystem(ecosystem("golang"), args[1:]).1 && printed == runEcosystem(ecosystem("golang"), args[1:]).0 + "\n"   [C15]
+//@   ensures wiring[hex]: len(args) > 0 && args[0] == "hex" ==> result == runEcosystem(ecosystem("hex"), args[1:]).1 && printed == runEcosystem(ecosystem("hex"), args[1:]).0 + "\n"   [C15]
+//@   ensures wiring[mattermost]: len(args) > 0 && args[0] == "mattermost" ==> result == runEcosystem(ecosystem("mattermost"), args[1:]).1 && printed == runEcosystem(ecosystem("mattermost"), args[1:]).0 + "\n"   [C15]
+//@   ensures wiring[maven]: len(args) > 0 && args[0] == "maven" ==> result == runEcosystem(ecosystem("maven"), args[1:]).1 && printed == runEcosystem(ecosystem("maven"), args[1:]).0 + "\n"   [C15]
+//@   ensures wiring[npm]: len(args) > 0 && args[0] == "npm" ==> result == runEcosystem(ecosystem("npm"), args[1:]).1 && printed == runEcosystem(ecosystem("npm"), args[1:]).0 + "\n"   [C15]
+//@   ensures wiring[nuget]: len(args) > 0 && args[0] == "nuget" ==> result == runEcosystem(ecosystem("nuget"), args[1:]).1 && printed == runEcosystem(ecosystem("nuget"), args[1:]).0 + "\n"   [C15]
+//@   ensures wiring[pypi]: len(args) > 0 && args[0] == "pypi" ==> result == runEcosystem(ecosystem("pypi"), args[1:]).1 && printed == runEcosystem(ecosystem("pypi"), args[1:]).0 + "\n"   [C15]
+//@   ensures wiring[rpm]: len(args) > 0 && args[0] == "rpm" ==> result == runEcosystem(ecosystem("rpm"), args[1:]).1 && printed == runEcosystem(ecosystem("rpm"), args[1:]).0 + "\n"   [C15]
+//@   ensures wiring[semver]: len(args) > 0 && args[0] == "semver" ==> result == runEcosystem(ecosystem("semver"), args[1:]).1 && printed == runEcosystem(ecosystem("semver"), args[1:]).0 + "\n"   [C15]
+//@   ensures unknown-name: len(args) > 0 && args[0] != "vers" && args[0] != "alpine" && args[0] != "alpm" && args[0] != "apache" && args[0] != "cargo" && args[0] != "conan" && args[0] != "composer" && args[0] != "cran" && args[0] != "debian" && args[0] != "gem" && args[0] != "gentoo" && args[0] != "github" && args[0] != "golang" && args[0] != "hex" && args[0] != "mattermost" && args[0] != "maven" && args[0] != "npm" && args[0] != "nuget" && args[0] != "pypi" && args[0] != "rpm" && args[0] != "semver" ==> result == 1   [C15]
